@@ -20,3 +20,35 @@ ob("SDsetchunk_fill", "C04", entry="h_SDsetchunk", enforce="SDsetchunk", mode="b
    bound="rank 0..4, chunk lengths <= 128 (element count of a chunk fits int32); all number types of size 1/2/4/8, "
          "standard/native/little-endian, user-set or default fill value, all three chunk-definition layouts",
    unwind=10, defines=["MAXR=4"], **SC)
+
+# ----------------------------------------------------------------------------- hcomp.c (loop-free)
+HD = dict(unit="hcomp_hdr_u.c", file="hdf/src/hcomp.c", objbits=8, cex_unwind=22, trusted=[])
+HP = ["C04", "C05", "C02"]
+ob("HCPquery_encode_header", HP, entry="h_HCPquery_encode_header", enforce="HCPquery_encode_header", **HD)
+ob("HCPencode_header", HP, entry="h_HCPencode_header", enforce="HCPencode_header", **HD)
+ob("HCPdecode_header", HP, entry="h_HCPdecode_header", enforce="HCPdecode_header", **HD)
+# decode(encode(x)) == x for every coder and every parameter field, in a buffer of exactly the queried length
+ob("HCP_header_roundtrip", HP, entry="h_HCP_header_roundtrip", **HD)
+
+# ----------------------------------------------------------------------------- putget.c
+PIO = dict(unit="putget_io_u.c", file="mfhdf/src/putget.c", objbits=8)
+PIO_TRUST = ["hdf_get_vp_aid", "Hinquire", "Hseek", "Hwrite", "Hread", "DFKconvert", "DFKgetPNSC/DFKisnativeNT/DFKislitendNT (reproduced)",
+             "HDmemfill", "NC_arrayfill", "NC_findattr", "DFKsetNT", "NC_hlookupvar", "nctypelen", "xdr_numrecs", "strstr"]
+# (2) first write.  The leading / trailing fill is written in chunks of at most MAX_SIZE = 1e6 bytes (an unguarded
+# #define of putget.c: it cannot be shrunk with -D), so the offset is symbolic up to 4 MB (<= 5 chunks) and ALL loops
+# are unwound.  (Closing the two chunk loops with loop contracts works -- invariant "position + bytes still to write
+# == where" was proved inductive -- but dfcc then checks the assignments of the six sibling loops without contract
+# against an empty write set, and loop clauses for putget.c may only use ghost names that units/putget_u.c also
+# defines; see the unit header.)  Allocation failure is out of scope (DESIGN 10.5): --no-malloc-may-fail.
+for w in (4, 8, 2, 1):
+    ob(f"NCvdata_firstwrite_w{w}", "C03", entry="h_NCvdata_firstwrite", enforce="hdf_xdr_NCvdata", mode="bounded",
+       bound=f"element size {w}, 1..4 elements per call, byte offset any multiple of {w} up to 4 MB (<= 5 fill chunks of the "
+             "real MAX_SIZE), variable length up to 8 MB (<= 9 trailing chunks), data_offset == 0, no allocation failure",
+       replace=["hdf_get_vp_aid"], unwind=24, cex_unwind=24, defines=[f"C03_W={w}"],
+       flags=["--no-malloc-may-fail"], gi_flags=["--no-malloc-may-fail"], timeout=900, trusted=PIO_TRUST,
+       tier="quick" if w == 4 else "thorough", **PIO)
+# (1) the odometer
+ob("NCvario", "C03", entry="h_NCvario", enforce="H4_NCvario", mode="bounded",
+   bound="rank 1..3, extents <= 4, edges 0..3, start -1..5, numrecs <= 4, element size 4; fixed-size and record variables, read and write",
+   replace=["hdf_get_vp_aid", "hdf_xdr_NCvdata"], unwind=14, cex_unwind=14, defines=["PGIO_VARIO", "MAXR=3", "C03_W=4"],
+   flags=["--no-malloc-may-fail"], gi_flags=["--no-malloc-may-fail"], timeout=1500, trusted=PIO_TRUST + ["hdf_xdr_NCvdata (run logger: contract preconditions are the checks)"], **PIO)
